@@ -101,6 +101,10 @@ func genC18(r *rand.Rand, t *Trace, thorough bool) {
 		d, _ := comet.NewDistance(metrics[mz])
 		dim := dims(r)
 		nq := r.Intn(5)
+		if it%3 == 0 {
+			// batches around the sizes a blocked / unrolled implementation would treat specially
+			nq = []int{7, 8, 9, 11, 15, 16, 17, 21, 31, 32, 33, 65}[r.Intn(12)]
+		}
 		qs := make([][]float32, nq)
 		for i := range qs {
 			qs[i] = rndVecMag(r, dim)
